@@ -280,7 +280,12 @@ def two_writer_world(base: str, cfg: dict):
 
     def body(i: int):
         def fn() -> None:
-            with AtomicWriter(dests[i], is_bytes=True) as f:
+            writer = AtomicWriter(dests[i], is_bytes=True)
+            if cfg.get('reuse') == i:
+                # the same writer object used for two complete cycles while the other writer is active
+                with writer as f:
+                    f.write(b'FIRST-CYCLE-OF-' + str(i).encode())
+            with writer as f:
                 for j in range(cfg['writes']):
                     f.write(news[i][j * 1000:(j + 1) * 1000])
                 if cfg.get('fail') == i:
@@ -504,7 +509,8 @@ def run(ctx: core.Ctx) -> None:
     shards = [('scenario', s) for s in scenario_list(ctx.quick)]
     w = ctx.pick(2, 3)
     for cfg in ({'writes': w}, {'writes': w, 'fail': 0}, {'writes': w, 'fail': 1}, {'writes': 1, 'stale': True},
-                {'writes': 1, 'stale': True, 'fail': 1}, {'writes': 1, 'same_dest': True}):
+                {'writes': 1, 'stale': True, 'fail': 1}, {'writes': 1, 'same_dest': True}, {'writes': 1, 'reuse': 0},
+                {'writes': 1, 'reuse': 1, 'fail': 0}):
         shards.append(('two', cfg, None))
     # conformance of the in-process operation model with real syscalls (strace), and real SIGKILLs
     st_specs = scenario_list(ctx.quick)
